@@ -194,9 +194,9 @@ func init() {
 		"fmt.Sprint":   extOpaqueString("fmt.Sprint"),
 		"fmt.Sprintln": extOpaqueString("fmt.Sprintln"),
 		"fmt.Errorf":   extFmtErrorf,
-		"fmt.Printf":   extNoopPrint,
-		"fmt.Println":  extNoopPrint,
-		"fmt.Print":    extNoopPrint,
+		"fmt.Printf":   extPrint("fmt.Printf"),
+		"fmt.Println":  extPrint("fmt.Println"),
+		"fmt.Print":    extPrint("fmt.Print"),
 		"fmt.Fprintf":  extNoopPrint,
 		"fmt.Fprintln": extNoopPrint,
 		"fmt.Fprint":   extNoopPrint,
@@ -898,6 +898,45 @@ func shortRender(x value) string {
 		s = s[:40]
 	}
 	return s
+}
+
+// extPrint: standard output is kept per path (for verifCaptureStdout); text with a symbolic
+// operand is recorded as U+FFFD followed by the opaque rendering.
+func extPrint(name string) externalFn {
+	return func(fr *frame, a []value) value {
+		i := fr.i
+		i.prints++
+		text, exact := "", false
+		switch name {
+		case "fmt.Printf":
+			if format, ok := a[0].(string); ok {
+				if va, ok := a[1].([]value); ok || a[1] == nil {
+					if na, ok := nativeArgs(fr, va); ok {
+						text, exact = fmt.Sprintf(format, na...), true
+					}
+				}
+			}
+		case "fmt.Println", "fmt.Print":
+			if va, ok := a[0].([]value); ok || a[0] == nil {
+				if na, ok := nativeArgs(fr, va); ok {
+					if name == "fmt.Println" {
+						text, exact = fmt.Sprintln(na...), true
+					} else {
+						text, exact = fmt.Sprint(na...), true
+					}
+				}
+			}
+		}
+		if !exact {
+			i.stdoutOpaque++
+			text = "\uFFFD" + extOpaqueString(name)(fr, a).(string) + "\n"
+		}
+		i.stdout.WriteString(text)
+		if fr.fn.Signature.Results().Len() == 2 {
+			return tuple{len(text), iface{}}
+		}
+		return nil
+	}
 }
 
 func extNoopPrint(fr *frame, a []value) value {
